@@ -204,6 +204,10 @@ func scnScript(w *World, cfg scnCfg, stop func() bool) (milestones bool) {
 				}
 			}
 		case "timeout":
+			// the timeout lies behind the canary duration (validation demands it), so a canary that is not paused
+			// may just as well be promoted by elapsed time first - both are right. The user pauses it, then time passes.
+			_ = w.C.SetEDSAnnotation(k.Namespace, k.Name, oracle.AnnCanaryPaused, "true")
+			rounds(2)
 			w.C.Advance(32 * time.Minute)
 		}
 		rounds(6)
